@@ -274,12 +274,9 @@ theorem progn_is_seq {n : Nat} {ρ : Env} {σ : St} {bodyObj : Obj} {body : List
   simp [evalN, step, stepEval, hb, stepForm, formOf]
 
 /-- a body: the first form is evaluated, its values are dropped, the rest follows in the new store -/
-theorem seq_cons_val {n : Nat} {ρ : Env} {e : Obj} {es : List Obj} {σ σ1 : St} {v : List Obj} (hne : es ≠ [])
+theorem body_first_then_rest {n : Nat} {ρ : Env} {e : Obj} {es : List Obj} {σ σ1 : St} {v : List Obj} (hne : es ≠ [])
     (h1 : evalN n (.form ρ e) σ = (.val v, σ1)) :
-    evalN (n + 1) (.seq ρ (e :: es)) σ = evalN n (.seq ρ es) σ1 := by
-  cases es with
-  | nil => exact absurd rfl hne
-  | cons x xs => simp [evalN, step, stepSeq, h1, bindV]
+    evalN (n + 1) (.seq ρ (e :: es)) σ = evalN n (.seq ρ es) σ1 := seq_cons_val hne h1
 
 /-- the last form of a body supplies all the values -/
 theorem seq_last {n : Nat} {ρ : Env} {e : Obj} {σ : St} :
